@@ -2953,7 +2953,11 @@ let split_step st line =
     sstate -> char list list -> char list list * exn option **)
 
 let rec split_lines st = function
-| [] -> ([], (if Nat.eqb st.unmatched O then None else Some ParserError))
+| [] ->
+  ([],
+    (if negb st.complete
+     then Some ParserError
+     else if Nat.eqb st.unmatched O then None else Some ParserError))
 | line :: rest ->
   (match split_step st line with
    | StCont st' -> split_lines st' rest
@@ -3838,6 +3842,14 @@ let text_guard eq =
   (&&) ((&&) (negb ((&&) (head_is '`' eq) (last_is '`' eq))) (aligned_b eq))
     (gaps_brace_free (scan_items eq))
 
+type xtok =
+| XCmp of cmpop
+| XIf
+| XElse
+| XAnd
+| XOr
+| XNot
+
 type ctok =
 | CRead of char list * z
 | CFun of char list
@@ -3852,6 +3864,7 @@ type ctok =
 | CComma
 | CAssign
 | CBad
+| CX of xtok
 
 (** val tok_of_match : tmatch -> ctok **)
 
@@ -3883,6 +3896,18 @@ let tok_of_match m =
      | TFunction -> (match term_code t with
                      | Some c -> CFun c
                      | None -> CBad)
+     | TKeyword ->
+       if eqb0 t.tname ('i'::('f'::[]))
+       then CX XIf
+       else if eqb0 t.tname ('e'::('l'::('s'::('e'::[]))))
+            then CX XElse
+            else if eqb0 t.tname ('a'::('n'::('d'::[])))
+                 then CX XAnd
+                 else if eqb0 t.tname ('o'::('r'::[]))
+                      then CX XOr
+                      else if eqb0 t.tname ('n'::('o'::('t'::[])))
+                           then CX XNot
+                           else CBad
      | _ -> CBad)
   | Raise _ -> CBad
 
@@ -3899,14 +3924,36 @@ let tok_of_char c =
                  then CLPar
                  else if (=) c ')'
                       then CRPar
-                      else if (=) c ','
-                           then CComma
-                           else if (=) c '=' then CAssign else CBad
+                      else if (=) c ',' then CComma else CBad
+
+(** val is_opc : char -> bool **)
+
+let is_opc c =
+  (||) ((||) ((||) ((=) c '<') ((=) c '>')) ((=) c '=')) ((=) c '!')
+
+(** val op1 : char -> ctok **)
+
+let op1 c =
+  if (=) c '<'
+  then CX (XCmp CLt)
+  else if (=) c '>'
+       then CX (XCmp CGt)
+       else if (=) c '=' then CAssign else CBad
+
+(** val op2 : char -> ctok **)
+
+let op2 c =
+  if (=) c '<'
+  then CX (XCmp CLe)
+  else if (=) c '>'
+       then CX (XCmp CGe)
+       else if (=) c '=' then CX (XCmp CEq) else CX (XCmp CNe)
 
 type lstate =
 | LNone
 | LNum of char list
 | LStar
+| LOp of char
 
 (** val flush : lstate -> ctok list **)
 
@@ -3914,6 +3961,7 @@ let flush = function
 | LNone -> []
 | LNum a -> (CNum (rev_str a [])) :: []
 | LStar -> CStar :: []
+| LOp c -> (op1 c) :: []
 
 (** val lex_items : lstate -> item list -> ctok list **)
 
@@ -3930,9 +3978,17 @@ let rec lex_items st = function
           then (match st with
                 | LStar -> CPow :: (lex_items LNone r)
                 | _ -> app (flush st) (lex_items LStar r))
-          else if is_space c
-               then app (flush st) (lex_items LNone r)
-               else app (flush st) ((tok_of_char c) :: (lex_items LNone r))
+          else if is_opc c
+               then (match st with
+                     | LOp p ->
+                       if (=) c '='
+                       then (op2 p) :: (lex_items LNone r)
+                       else app (flush st) (lex_items (LOp c) r)
+                     | _ -> app (flush st) (lex_items (LOp c) r))
+               else if is_space c
+                    then app (flush st) (lex_items LNone r)
+                    else app (flush st)
+                           ((tok_of_char c) :: (lex_items LNone r))
    | Tok (_, m) -> app (flush st) ((tok_of_match m) :: (lex_items LNone r)))
 
 (** val lit_dots : char list -> nat **)
@@ -4288,10 +4344,236 @@ let tree_fuel ts =
   add (mul (S (S (S (S (S (S (S (S O)))))))) (length ts)) (S (S (S (S (S (S
     (S (S O))))))))
 
-(** val stmt_of_tokens :
-    (char list -> nat option) -> ctok list -> (char list * sstmt) option **)
+type scond =
+| SCmp of cmpop * sexpr * sexpr
+| SAnd of scond * scond
+| SOr of scond * scond
+| SNot of scond
 
-let stmt_of_tokens row = function
+type stest =
+| SVal of sexpr
+| SIf of sexpr * scond * stest
+
+(** val mk_if : scond -> sexpr -> sexpr -> sexpr **)
+
+let rec mk_if c a b =
+  match c with
+  | SCmp (o, l, r) -> EIf (o, l, r, a, b)
+  | SAnd (c1, c2) -> mk_if c1 (mk_if c2 a b) b
+  | SOr (c1, c2) -> mk_if c1 a (mk_if c2 a b)
+  | SNot c1 -> mk_if c1 b a
+
+(** val denote : stest -> sexpr **)
+
+let rec denote = function
+| SVal e -> e
+| SIf (a, c, b) -> mk_if c a (denote b)
+
+(** val p_or :
+    (char list -> nat option) -> nat -> ctok list -> (scond * ctok list)
+    option **)
+
+let p_or row =
+  let rec p_or0 fuel ts =
+    match fuel with
+    | O -> None
+    | S f ->
+      (match p_and f ts with
+       | Some p -> let (c, r) = p in p_or_loop f c r
+       | None -> None)
+  and p_or_loop fuel acc ts =
+    match fuel with
+    | O -> None
+    | S f ->
+      (match ts with
+       | [] -> Some (acc, ts)
+       | c :: r ->
+         (match c with
+          | CX x ->
+            (match x with
+             | XOr ->
+               (match p_and f r with
+                | Some p -> let (b, r') = p in p_or_loop f (SOr (acc, b)) r'
+                | None -> None)
+             | _ -> Some (acc, ts))
+          | _ -> Some (acc, ts)))
+  and p_and fuel ts =
+    match fuel with
+    | O -> None
+    | S f ->
+      (match p_not f ts with
+       | Some p -> let (c, r) = p in p_and_loop f c r
+       | None -> None)
+  and p_and_loop fuel acc ts =
+    match fuel with
+    | O -> None
+    | S f ->
+      (match ts with
+       | [] -> Some (acc, ts)
+       | c :: r ->
+         (match c with
+          | CX x ->
+            (match x with
+             | XAnd ->
+               (match p_not f r with
+                | Some p -> let (b, r') = p in p_and_loop f (SAnd (acc, b)) r'
+                | None -> None)
+             | _ -> Some (acc, ts))
+          | _ -> Some (acc, ts)))
+  and p_not fuel ts =
+    match fuel with
+    | O -> None
+    | S f ->
+      (match ts with
+       | [] -> p_cmp f ts
+       | c :: r ->
+         (match c with
+          | CX x ->
+            (match x with
+             | XNot ->
+               (match p_not f r with
+                | Some p -> let (c0, r') = p in Some ((SNot c0), r')
+                | None -> None)
+             | _ -> p_cmp f ts)
+          | _ -> p_cmp f ts))
+  and p_cmp fuel ts =
+    match fuel with
+    | O -> None
+    | S f ->
+      (match p_expr row (tree_fuel ts) ts with
+       | Some p ->
+         let (l, l0) = p in
+         (match l0 with
+          | [] ->
+            (match ts with
+             | [] -> None
+             | c :: r ->
+               (match c with
+                | CLPar ->
+                  (match p_or0 f r with
+                   | Some p0 ->
+                     let (c0, l1) = p0 in
+                     (match l1 with
+                      | [] -> None
+                      | c1 :: rest ->
+                        (match c1 with
+                         | CRPar -> Some (c0, rest)
+                         | _ -> None))
+                   | None -> None)
+                | _ -> None))
+          | c :: r ->
+            (match c with
+             | CX x ->
+               (match x with
+                | XCmp o ->
+                  (match p_expr row (tree_fuel r) r with
+                   | Some p0 ->
+                     let (r', rest) = p0 in Some ((SCmp (o, l, r')), rest)
+                   | None -> None)
+                | _ ->
+                  (match ts with
+                   | [] -> None
+                   | c0 :: r0 ->
+                     (match c0 with
+                      | CLPar ->
+                        (match p_or0 f r0 with
+                         | Some p0 ->
+                           let (c1, l1) = p0 in
+                           (match l1 with
+                            | [] -> None
+                            | c2 :: rest ->
+                              (match c2 with
+                               | CRPar -> Some (c1, rest)
+                               | _ -> None))
+                         | None -> None)
+                      | _ -> None)))
+             | _ ->
+               (match ts with
+                | [] -> None
+                | c0 :: r0 ->
+                  (match c0 with
+                   | CLPar ->
+                     (match p_or0 f r0 with
+                      | Some p0 ->
+                        let (c1, l1) = p0 in
+                        (match l1 with
+                         | [] -> None
+                         | c2 :: rest ->
+                           (match c2 with
+                            | CRPar -> Some (c1, rest)
+                            | _ -> None))
+                      | None -> None)
+                   | _ -> None))))
+       | None ->
+         (match ts with
+          | [] -> None
+          | c :: r ->
+            (match c with
+             | CLPar ->
+               (match p_or0 f r with
+                | Some p ->
+                  let (c0, l) = p in
+                  (match l with
+                   | [] -> None
+                   | c1 :: rest ->
+                     (match c1 with
+                      | CRPar -> Some (c0, rest)
+                      | _ -> None))
+                | None -> None)
+             | _ -> None)))
+  in p_or0
+
+(** val p_test :
+    (char list -> nat option) -> nat -> ctok list -> (stest * ctok list)
+    option **)
+
+let rec p_test row fuel ts =
+  match fuel with
+  | O -> None
+  | S f ->
+    (match p_expr row (tree_fuel ts) ts with
+     | Some p ->
+       let (a, rest) = p in
+       (match rest with
+        | [] -> Some ((SVal a), rest)
+        | c :: r ->
+          (match c with
+           | CX x ->
+             (match x with
+              | XIf ->
+                (match p_or row f r with
+                 | Some p0 ->
+                   let (c0, l) = p0 in
+                   (match l with
+                    | [] -> None
+                    | c1 :: r2 ->
+                      (match c1 with
+                       | CX x0 ->
+                         (match x0 with
+                          | XElse ->
+                            (match p_test row f r2 with
+                             | Some p1 ->
+                               let (b, rest0) = p1 in
+                               Some ((SIf (a, c0, b)), rest0)
+                             | None -> None)
+                          | _ -> None)
+                       | _ -> None))
+                 | None -> None)
+              | _ -> Some ((SVal a), rest))
+           | _ -> Some ((SVal a), rest)))
+     | None -> None)
+
+(** val test_fuel : ctok list -> nat **)
+
+let test_fuel ts =
+  add (mul (S (S (S (S (S (S (S (S O)))))))) (length ts)) (S (S (S (S (S (S
+    (S (S O))))))))
+
+(** val src_of_tokens :
+    (char list -> nat option) -> ctok list ->
+    (((char list * nat) * z) * stest) option **)
+
+let src_of_tokens row = function
 | [] -> None
 | c :: l ->
   (match c with
@@ -4303,16 +4585,27 @@ let stmt_of_tokens row = function
          | CAssign ->
            (match row y with
             | Some i ->
-              (match p_expr row (tree_fuel rhs) rhs with
+              (match p_test row (test_fuel rhs) rhs with
                | Some p ->
-                 let (e, l0) = p in
+                 let (st, l0) = p in
                  (match l0 with
-                  | [] -> Some (y, (SAssign (i, k0, (fold_ints e))))
+                  | [] -> Some (((y, i), k0), st)
                   | _ :: _ -> None)
                | None -> None)
             | None -> None)
          | _ -> None))
    | _ -> None)
+
+(** val stmt_of_tokens :
+    (char list -> nat option) -> ctok list -> (char list * sstmt) option **)
+
+let stmt_of_tokens row ts =
+  match src_of_tokens row ts with
+  | Some p ->
+    let (p0, st) = p in
+    let (p1, k0) = p0 in
+    let (y, i) = p1 in Some (y, (SAssign (i, k0, (fold_ints (denote st)))))
+  | None -> None
 
 (** val stmt_of_equation :
     (char list -> nat option) -> char list -> (char list * sstmt) option **)
